@@ -117,7 +117,7 @@ theorem documentLoop_ext (n : Nat) (r : Reader) (w : Writer) :
   | zero => rw [documentLoop]; exact Ext.of_fuel _
   | succ n ih => rw [documentLoop, documentLoop]; ext_go
 
-theorem documentRender_ext (n : Nat) (t : Str) (d : Nat) :
+theorem documentRender_ext (n : Nat) (t : Str) (d : Depth) :
     Ext (documentRender rec env n t d) (documentRender rec' env (n+1) t d) := by
   have h := documentLoop_ext hr env
   unfold documentRender; ext_go
